@@ -156,6 +156,14 @@ def lean_line(inst, oriented, fixer):
     return " ".join(toks)
 
 
+def mirror_line(inst, oriented):
+    toks = ["gsmirror", "1" if oriented else "0", str(inst["n"]), str(inst["m"])]
+    toks += [optn(v) for row in inst["R"] for v in row]
+    toks += [optn(v) for row in inst["H"] for v in row]
+    toks += [str(x) for x in inst["c"]]
+    return " ".join(toks)
+
+
 def parse_pairs(ans):
     t = ans.split()
     if t[0] != "ok":
